@@ -107,6 +107,7 @@ type source struct {
 	panics       []string
 	menuMu       sync.Mutex
 	menus        map[string][]action
+	verdicts     map[string][]violation
 }
 
 func newTrieOver(db data.DBWriteCacher) data.Trie {
@@ -245,6 +246,7 @@ func buildSource(id int, keys []string) *source {
 		s.garbageClass[cls]++
 	}
 	s.menus = map[string][]action{}
+	s.verdicts = map[string][]violation{}
 	return s
 }
 
@@ -274,6 +276,8 @@ type recDB struct {
 	mu    sync.Mutex
 	puts  [][2][]byte
 	rems  int
+	// removed = "position in the put sequence:key" of every Remove call (none is expected)
+	removed []string
 }
 
 func (d *recDB) Put(k, v []byte) error {
@@ -286,6 +290,7 @@ func (d *recDB) Get(k []byte) ([]byte, error) { return d.inner.Get(k) }
 func (d *recDB) Remove(k []byte) error {
 	d.mu.Lock()
 	d.rems++
+	d.removed = append(d.removed, fmt.Sprintf("%d:%x", len(d.puts), k))
 	d.mu.Unlock()
 	return d.inner.Remove(k)
 }
@@ -364,8 +369,9 @@ type action struct {
 //	omit             deliver a proper subset of them (every proper subset, incl. nothing)
 //	foreign          answer one request with the node at the same position of another trie
 //	                 with the same keys (other values), the rest normally
-//	noncanon         answer one request with a non-canonical encoding of the node
-//	noncanon-after   deliver everything, then a non-canonical encoding of one of them
+//	noncanon         answer one request with a non-canonical encoding of the node (sending
+//	                 it in addition to the canonical bytes leaves the same cache content:
+//	                 both are stored under the same key, the later one wins)
 //	unrequested      deliver everything plus one node of the source trie that was not
 //	                 requested in this round (early, i.e. never requested yet, or repeated,
 //	                 i.e. delivered before)
@@ -437,9 +443,6 @@ func (s *source) buildMenu(req []string) []action {
 	}
 	for i, h := range reqKnown {
 		acts = append(acts, action{kind: "noncanon", what: short(h), msgs: except(i, nonCanonical(s.enc[h]))})
-	}
-	for _, h := range reqKnown {
-		acts = append(acts, action{kind: "noncanon-after", what: short(h), msgs: append(append([][]byte{}, all...), nonCanonical(s.enc[h]))})
 	}
 	for _, h := range s.hashes {
 		if !inReq[h] {
@@ -610,9 +613,49 @@ func runOne(s *source, cfg config, ch *mc.Chooser) *result {
 	}
 	r.unknown = e.unknown
 	if r.outcome == "synced" {
-		r.viol = oracle(s, db)
+		r.viol = s.judge(db)
 	}
 	return r
+}
+
+// judge evaluates the oracle, memoised per source on the exact sequence of Put/Remove calls
+// the target DB has seen: the DB starts empty, so its content - all the oracle looks at - is
+// a function of that sequence (most schedules end with the same few sequences).
+func (s *source) judge(db *recDB) []violation {
+	var sb strings.Builder
+	fmt.Fprintf(&sb, "%v|", db.removed)
+	for _, kv := range db.puts {
+		sb.Write(kv[0])
+		sb.WriteByte(byte(len(kv[1])))
+		sb.Write(kv[1])
+	}
+	key := sb.String()
+	s.menuMu.Lock()
+	v, ok := s.verdicts[key]
+	s.menuMu.Unlock()
+	if ok {
+		return cloneViolations(v)
+	}
+	v = oracle(s, db)
+	s.menuMu.Lock()
+	s.verdicts[key] = v
+	s.menuMu.Unlock()
+	return cloneViolations(v)
+}
+
+func cloneViolations(v []violation) []violation {
+	if len(v) == 0 {
+		return nil
+	}
+	out := make([]violation, len(v))
+	for i, x := range v {
+		d := make(map[string]interface{}, len(x.detail)+4)
+		for k, y := range x.detail {
+			d[k] = y
+		}
+		out[i] = violation{x.sig, d}
+	}
+	return out
 }
 
 type step struct {
@@ -842,6 +885,7 @@ func main() {
 		// ---- the enumerated space per tier
 		type stage struct {
 			name    string
+			minKeys int
 			maxKeys int
 			bound   int
 			cfgs    []config
@@ -851,21 +895,24 @@ func main() {
 		smallCap := func(sy int) config { return config{Syncer: sy, CacheCap: 64, HardCap: 1} }
 		order := func(sy int) config { return config{Syncer: sy, CacheCap: 64, HardCap: 100, MapOrder: true} }
 		both := func(f func(int) config) []config { return []config{f(1), f(2)} }
+		// Map orders are only explored in stages whose config has MapOrder (a chooser is
+		// attached to the syncer coroutine); everywhere else the order is the sorted one.
+		vmap.MaxPermute = 4
 		var stages []stage
 		if c.Quick() {
-			vmap.MaxPermute = 1
 			stages = []stage{
-				{"base", 4, 2, both(base)},
-				{"small-cache", 3, 2, both(smallCache)},
-				{"hard-cap-1", 3, 2, both(smallCap)},
+				{"base", 1, 4, 2, both(base)},
+				{"small-cache", 1, 4, 1, both(smallCache)},
+				{"hard-cap-1", 1, 4, 1, both(smallCap)},
+				{"map-order", 1, 4, 1, both(order)},
 			}
 		} else {
-			vmap.MaxPermute = 4
 			stages = []stage{
-				{"base", 4, 3, both(base)},
-				{"small-cache", 4, 2, both(smallCache)},
-				{"hard-cap-1", 4, 2, both(smallCap)},
-				{"map-order", 3, 2, both(order)},
+				{"base<=3keys", 1, 3, 3, both(base)},
+				{"base-4keys", 4, 4, 3, both(base)},
+				{"small-cache", 1, 4, 2, both(smallCache)},
+				{"hard-cap-1", 1, 4, 2, both(smallCap)},
+				{"map-order", 1, 4, 2, both(order)},
 			}
 		}
 		if v := c.Seed; v < 0 { // development aid: VERIF_SEED=-n restricts to stage n-1
@@ -940,7 +987,7 @@ func main() {
 			}
 			var tasks []task
 			for _, s := range srcs {
-				if len(s.Keys) > st.maxKeys {
+				if len(s.Keys) > st.maxKeys || len(s.Keys) < st.minKeys {
 					continue
 				}
 				for _, cfg := range st.cfgs {
@@ -964,8 +1011,8 @@ func main() {
 				acc.counts["executions_"+st.name] += stt.Executions
 				acc.flush(c)
 			})
-			desc = append(desc, fmt.Sprintf("%s: %d tasks (tries of <=%d keys x syncers), deviation bound %d, cfg %+v, %d executions, %.0fs",
-				st.name, len(tasks), st.maxKeys, st.bound, st.cfgs[1], c.Counter("executions")-before, time.Since(t0).Seconds()))
+			desc = append(desc, fmt.Sprintf("%s: %d tasks (tries of %d..%d keys x syncers), deviation bound %d, cfg %+v, %d executions, %.0fs",
+				st.name, len(tasks), st.minKeys, st.maxKeys, st.bound, st.cfgs[1], c.Counter("executions")-before, time.Since(t0).Seconds()))
 		}
 		c.Set("stages", desc)
 		if cfgOrder := vmap.Sites; len(cfgOrder) > 0 {
@@ -981,7 +1028,7 @@ func main() {
 			c.Set("map_range_sites_deviated", dv)
 		}
 
-		c.Rule = "source tries = all non-empty subsets of <=4 keys of the 12-key alphabet (value \"v\" each); per (trie, syncer version 1|2, config) every delivery schedule within the deviation bound: after each iteration of the real StartSyncing loop the environment delivers, through the real interceptor path, either exactly the requested nodes (default) or one deviation: any proper subset (incl. nothing); one request answered by the node at the same position of a trie with the same keys and other values; one request answered by a non-canonical encoding (unknown proto field); a non-canonical encoding after the canonical one; one unrequested node of the source trie (early or repeated); all nodes of the other trie; a batch of 14 byte strings that are not valid nodes. Oracle only when StartSyncing returns nil. Non-trivial = execution with >=1 deviation that completed with nil, keyed by (trie, config, multiset of deviation kinds)."
+		c.Rule = "source tries = all non-empty subsets of <=4 keys of the 12-key alphabet (value \"v\" each); per (trie, syncer version 1|2, config) every delivery schedule within the deviation bound: after each iteration of the real StartSyncing loop the environment delivers, through the real interceptor path, either exactly the requested nodes (default) or one deviation: any proper subset (incl. nothing); one request answered by the node at the same position of a trie with the same keys and other values; one request answered by a non-canonical encoding (unknown proto field); one unrequested node of the source trie (early or repeated); all nodes of the other trie; a batch of 14 byte strings that are not valid nodes. Oracle only when StartSyncing returns nil. Non-trivial = execution with >=1 deviation that completed with nil, keyed by (trie, config, multiset of deviation kinds)."
 		c.Bound = strings.Join(desc, " | ")
 		c.Assumptions = []string{
 			"one delivered byte string = one message (a one-element batch); a real multi-element batch is all-or-nothing, which is a delivery of the whole batch or of nothing",
